@@ -1229,7 +1229,11 @@ def _value_counts(x, **kwargs):
     if not x.groups or all(
         pd.isna(key) for key in flatten(x.groups.keys(), container=tuple)
     ):
-        return pd.Series(dtype=int)
+        try:
+            # keeps the key levels, the name and the dtype of the result
+            return x.value_counts(**kwargs)
+        except Exception:
+            return pd.Series(dtype=int)
     else:
         return x.value_counts(**kwargs)
 
